@@ -731,6 +731,10 @@ class ESME:
                 else:
                     # Use last pertinent segment response
                     smpp_message = segment_status.last_response or smpp_message
+            elif original_message.get_segmentation_data()[2] > 0:
+                # A segment whose message has already got its outcome: another segment timed
+                # out while this response was being correlated and the time-out was reported
+                smpp_message = _SUBMIT_SM_SEGMENT
 
         self._logger.debug(
             'Handled SMPP response',
